@@ -356,7 +356,9 @@ def fill_body(label, body, invs, tokens, nloops, parts, nogate=(), extratag='@C0
             site = f"/*@site {label}#{k}*/"
             k += 1
             m = re.match(r"^(\s*)(return\s+)?(\S.*?)\.call\(h, g, c, (.*)\);\s*$", line)
-            if m and not m.group(3).startswith("let ") and m.group(3).strip() not in nogate:
+            bal = lambda t: t.count("(") == t.count(")") and t.count("{") == t.count("}") and t.count("[") == t.count("]")
+            # (a call nested inside another expression, e.g. an argument of a trace event, is not a statement of its own)
+            if m and bal(m.group(3)) and bal(m.group(4)) and not m.group(3).startswith("let ") and m.group(3).strip() not in nogate:
                 ind, ret, recv, args = m.groups()
                 ret = ret or ""
                 lines.append(f"{ind}; {{")
